@@ -254,6 +254,16 @@ def run(chk):
     for kg, k2 in (('nsr_genobl', 'nsr_medobl'), ('nsr_modes_genobl', 'nsr_modes_medobl')):
         taylor_agree('R14.4', f'{FILES[k2]} == {FILES[kg]} through obliquity^2 (total degree 3 in e, obliquity) (time-dependent part)', total(k2, us), total(kg, us), orders,
                      mods[k2][0].where(mods[k2][1]))
+    # (i', ii') the same limits for the non-modal variants with the static part requested, on spin-orbit resonances: there some modes have zero frequency and only survive
+    #          because use_static=True also switches the frequency test off -- a variant that handles the flag differently from its siblings shows up here and nowhere else
+    from fractions import Fraction as _Fr
+    for q in ((_Fr(1), _Fr(3, 2)) if chk.tier == 'quick' else (_Fr(1), _Fr(3, 2), _Fr(2), _Fr(1, 2), _Fr(-1))):
+        sp = X.const(q) * n
+        for kg, k0 in (('nsr_genobl', 'nsr_noobl'), ('nsr_medobl', 'nsr_noobl')):
+            taylor_agree('R14.4', f'{FILES[kg]} at obliquity = 0 == {FILES[k0]} with use_static=True on the resonance spin = {q} n', total(kg, True, spin=sp), total(k0, True, spin=sp), [{'obliquity': 0}],
+                         mods[kg][0].where(mods[kg][1]))
+        taylor_agree('R14.4', f'{FILES["nsr_medobl"]} == {FILES["nsr_genobl"]} through obliquity^2 (total degree 3) with use_static=True on the resonance spin = {q} n', total('nsr_medobl', True, spin=sp),
+                     total('nsr_genobl', True, spin=sp), orders, mods['nsr_medobl'][0].where(mods['nsr_medobl'][1]))
     # (iii) low-e general == med-e general through e^1
     taylor_agree('R14.4', f'{FILES["nsr_modes_lowe_genobl"]} == {FILES["nsr_modes_genobl"]} through e^1 (time-dependent part)', total('nsr_modes_lowe_genobl', us), total('nsr_modes_genobl', us),
                  [{'e': 0}, {'e': 1}], mods['nsr_modes_lowe_genobl'][0].where(mods['nsr_modes_lowe_genobl'][1]))
